@@ -242,7 +242,7 @@ func checkC04(tier string) {
 	r.Assume("bounded work is decided by a 25 s watchdog per request (normal requests take < 5 ms) with two goroutine dumps; finite-but-enormous loops are not generated")
 	cases := c04Cases(r)
 	// random ill-typed programs
-	nrand := r.Pick(1500, 60000)
+	nrand := r.Pick(6000, 400000)
 	for i := 0; i < nrand; i++ {
 		rng := r.Rand(fmt.Sprintf("hostile-%d", i))
 		f := gen.FullInterp()
